@@ -27,11 +27,12 @@ ASSUMPTIONS = [
     'defining expressions are only passed with single-name flows, as every caller in the package does',
 ]
 
-ATOMS = ['W', 'DIV', 'T', 'G', 'p', 'q']
+ATOMS = ['W', 'DIV', 'T', 'G', 'p', 'q', 'p1', 'q1', 'p2', 'q2']
 # qualified names of OTHER sectors' variables (what Model.RegisterCashFlow hands to the receiving sector) share their
 # local part with this sector's own flows and exclusions: O__W is a different flow from W
 QUALIFIED = ['O__W', 'O__DIV', 'BUS__DEM_GOOD']
-CORES = ['W', 'DIV', 'T', 'G', 'p*q', 'W/q', '2*G', 'p*W', 'DEM_GOOD', 'SUP_LAB'] + QUALIFIED
+# (p1*q2 and p2*q1 are different flows spelled with the same characters; q*p is the same product as p*q)
+CORES = ['W', 'DIV', 'T', 'G', 'p*q', 'W/q', '2*G', 'p*W', 'DEM_GOOD', 'SUP_LAB', 'p1*q2', 'p2*q1', 'p1*q1'] + QUALIFIED
 SIGNS = [('%s', 1), ('+%s', 1), ('-%s', -1), ('(%s)', 1), ('(+%s)', 1), ('(-%s)', -1), ('-(-%s)', 1), ('-(%s)', -1),
          (' - %s', -1), ('+ %s ', 1), ('+(-%s)', -1)]
 EQNS = [None, None, None, '', 'p*q', 'OTHER__X', '0.0', 'W + 1', '2*G']
